@@ -125,6 +125,25 @@ class Use:
         return f"{self.tag}[{self.index}]->{self.binding}"
 
 
+_CTOR_PARAMS: Dict[str, List[str]] = {}
+
+
+def _load_ctor_params(types_mod) -> None:
+    """Constructor parameters (after self) of the record classes of data/csv_types.py, for positional call sites in the reader."""
+    _CTOR_PARAMS.clear()
+    for c in ast.walk(types_mod.tree):
+        if isinstance(c, ast.ClassDef):
+            for m in c.body:
+                if isinstance(m, ast.FunctionDef) and m.name == "__init__":
+                    _CTOR_PARAMS[c.name] = [a.arg for a in (m.args.posonlyargs + m.args.args)[1:]]
+            if c.name not in _CTOR_PARAMS and any((isinstance(d, ast.Name) and d.id == "dataclass") or
+                                                  (isinstance(d, ast.Call) and isinstance(d.func, ast.Name) and d.func.id == "dataclass") for d in c.decorator_list) \
+                    and not c.bases:
+                # a dataclass without bases: the generated constructor takes the annotated fields in order
+                _CTOR_PARAMS[c.name] = [m.target.id for m in c.body if isinstance(m, ast.AnnAssign) and isinstance(m.target, ast.Name)
+                                        and "ClassVar" not in ast.unparse(m.annotation)]
+
+
 def _binding_of(sub: ast.AST, depth: int = 0) -> Tuple[str, Optional[str]]:
     """What the reader does with reading[i]: (binding description, conversion)."""
     n: ast.AST = sub
@@ -165,6 +184,10 @@ def _binding_of(sub: ast.AST, depth: int = 0) -> Tuple[str, Optional[str]]:
         if isinstance(pp, ast.Assign):
             return (f"assignexpr:{norm(pp.targets[0])}", conv)
     if isinstance(p, ast.Call) and n in p.args:
+        params = _CTOR_PARAMS.get(call_name(p) or "")
+        k = [j for j, a in enumerate(p.args) if a is n][0]
+        if params is not None and isinstance(p.func, ast.Name) and k < len(params) and not any(isinstance(a, ast.Starred) for a in p.args[:k + 1]):
+            return (f"kw:{call_name(p)}.{params[k]}", conv)  # positional argument of a record constructor: the parameter it lands in
         return (f"arg:{call_name(p)}", conv)
     if isinstance(p, ast.Compare):
         return ("compare", conv)
@@ -178,6 +201,7 @@ def _binding_of(sub: ast.AST, depth: int = 0) -> Tuple[str, Optional[str]]:
 def reader_cases(reader_mod, types_mod) -> Tuple[Dict[str, List[Use]], Dict[str, Dict], ast.FunctionDef]:
     """tag -> uses; tag -> {'tail_start': k} for variable-length tails."""
     cls = reader_mod.cls("CSVReader")
+    _load_ctor_params(types_mod)
     fn = None
     for n in cls.body:
         if isinstance(n, ast.FunctionDef) and n.name == "parse_events":
